@@ -4,11 +4,12 @@ extracted model (driver ExC17) and through an independent Python reference evalu
 generated AST (the oracle)."""
 import itertools
 import sys
-from datetime import timedelta
 
 from . import common
 from .common import Check
-from .c17_impl import HarnessBroken, Impl, Unsupported, QNAME, T_END, T_START, show_outcome
+from .c11_ref import REF, denotation
+from .c17_impl import B1_EVENTS, HOUR, MINUTE, HarnessBroken, Impl, Unsupported, QNAME, T_END, T_START, show_outcome
+from .c17_session import Session, canon, minimise
 
 RULE = ("every token kind in every argument position (all 216 kind triples of a 3-argument call, each kind "
         "nested in call / list / dict-value position), the defect-13 witnesses, what the model's wf admits beyond "
@@ -18,8 +19,16 @@ RULE = ("every token kind in every argument position (all 216 kind triples of a 
         "<= 14 narrow, 0-3 arguments, 1-8 statements with rebinding and aliasing, random names, strings "
         "containing brackets, commas, both quotes, backslashes, '=', ':' and non-ASCII text, dict literals with "
         "distinct keys, the built-ins that are pure on literals plus echo), each under two random layouts "
-        "(blanks from all ten ASCII white-space characters); non-trivial = distinct program text containing a "
-        "call, a list or a dict")
+        "(blanks from all ten ASCII white-space characters); HISTORY and CONTEXT: the identical call text again "
+        "after its variable arguments were rebound (every call shape x every nesting, and as a mutation of the random "
+        "programs), identical literal-argument calls with an in-place built-in (categorize, tag) applied to one "
+        "occurrence or STARTTIME / ENDTIME rebound in between (on buckets with events; the reference evaluator is read "
+        "both with immutable values and with Python's object semantics, programs on which the two differ are skipped), "
+        "RETURN assigned early / several times / followed by further and by failing statements, SESSIONS of several "
+        "queries in one process (a failing query first, the same call texts afterwards with other values; one text "
+        "asked of two datastores with different contents alive at once; a text asked three times), 10 001-element "
+        "lists; every query of a session is compared with the reference and the model run on that query alone; "
+        "non-trivial = distinct program text containing a call, a list or a dict")
 
 # every ASCII character str.strip() removes (Model/PyStr.v is_space): \t \n \x0b \x0c \r \x1c-\x1f and the space
 BLANKS = ["", "", " ", " ", "  ", "\n", "\t", " \n ", "\r\n", "\x0c", "\n\n  ", "\r", "\x0b", "\x1c", "\x1d", "\x1e",
@@ -44,87 +53,9 @@ def g_name(rng):
 PREDEF = ["true", "false", "True", "False", "NAME", "STARTTIME", "ENDTIME"]
 
 
-class RefError(Exception):
-    def __init__(self, cls):
-        self.cls = cls
-
-
-# The reference evaluator's own table of built-ins: (parameter types or None for variadic, function).
-# Independent of aw_query.functions: written from the documented behaviour on literal arguments.
-def _empty(*lists):
-    def f(*a):
-        return []
-    return f
-
-
-REF = {
-    "nop": ([], lambda: 1),
-    "echo": (None, lambda *a: list(a)),
-    "limit_events": (["list", "int"], lambda l, n: l[:n]),
-    "concat": (["list", "list"], lambda a, b: a + b),
-    "sort_by_timestamp": (["list"], _empty()),
-    "sort_by_duration": (["list"], _empty()),
-    "flood": (["list"], _empty()),
-    "merge_events_by_keys": (["list", "list"], _empty()),
-    "filter_keyvals": (["list", "str", "list"], _empty()),
-    "exclude_keyvals": (["list", "str", "list"], _empty()),
-    "period_union": (["list", "list"], _empty()),
-    "sum_durations": (["list"], lambda l: timedelta(0)),
-}
+# built-ins the random stream calls on empty lists only (the reference evaluator: harness/c11_ref.py)
 EMPTY_ONLY = {"sort_by_timestamp", "sort_by_duration", "flood", "merge_events_by_keys", "filter_keyvals",
               "exclude_keyvals", "period_union", "sum_durations"}
-
-
-def py_isinstance(v, t):
-    return {"list": isinstance(v, list), "str": isinstance(v, str), "int": isinstance(v, int)}[t]
-
-
-def ref_eval(t, ns):
-    k = t[0]
-    if k == "int":
-        return int(t[1])
-    if k == "str":
-        return t[2]
-    if k == "var":
-        if t[1] not in ns:
-            raise RefError("InterpretError")
-        return ns[t[1]]
-    if k == "list":
-        return [ref_eval(x, ns) for x in t[1]]
-    if k == "dict":
-        return {key: ref_eval(v, ns) for (_, key), v in t[1]}
-    name, args = t[1], t[2]
-    if name not in REF:
-        raise RefError("InterpretError")
-    vals = [ref_eval(a, ns) for a in args]
-    types, fn = REF[name]
-    if types is not None:
-        for ty, v in zip(types, vals):
-            if not py_isinstance(v, ty):
-                raise RefError("FunctionError")
-        if len(vals) != len(types):
-            raise RefError("InterpretError")
-    return fn(*vals)
-
-
-def ref_run(prog):
-    ns = {"True": True, "False": False, "true": True, "false": False, "NAME": QNAME,
-          "STARTTIME": T_START.isoformat(), "ENDTIME": T_END.isoformat()}
-    for name, e in prog:
-        ns[name] = ref_eval(e, ns)
-    if "RETURN" not in ns:
-        raise RefError("ParseError")
-    return ns["RETURN"]
-
-
-def deep_eq(a, b):
-    if type(a) is not type(b):
-        return False
-    if isinstance(a, list):
-        return len(a) == len(b) and all(deep_eq(x, y) for x, y in zip(a, b))
-    if isinstance(a, dict):
-        return list(a.keys()) == list(b.keys()) and all(deep_eq(a[k], b[k]) for k in a)
-    return a == b
 
 
 # -- printing (mirrors Model/QueryRef.v: print) ----------------------------------------------
@@ -133,19 +64,27 @@ def escape(q, s):
     return s.replace(q, "\\" + q)
 
 
-def p_term(t, bl):
+def p_term(t, bl, memo=None):
+    """memo: {id(term): text} - a term OBJECT that occurs several times in a program / a session is printed
+    once and its text reused, so that the occurrences are character for character the same call text."""
+    if memo is not None and id(t) in memo:
+        return memo[id(t)]
     k = t[0]
     if k == "int":
-        return t[1]
-    if k == "str":
-        return t[1] + escape(t[1], t[2]) + t[1]
-    if k == "var":
-        return t[1]
-    if k == "call":
-        return t[1] + "(" + p_inner([p_term(a, bl) for a in t[2]], bl) + ")"
-    if k == "list":
-        return "[" + p_inner([p_term(a, bl) for a in t[1]], bl) + "]"
-    return "{" + p_inner([q + escape(q, key) + q + bl() + ":" + bl() + p_term(v, bl) for (q, key), v in t[1]], bl) + "}"
+        out = t[1]
+    elif k == "str":
+        out = t[1] + escape(t[1], t[2]) + t[1]
+    elif k == "var":
+        out = t[1]
+    elif k == "call":
+        out = t[1] + "(" + p_inner([p_term(a, bl, memo) for a in t[2]], bl) + ")"
+    elif k == "list":
+        out = "[" + p_inner([p_term(a, bl, memo) for a in t[1]], bl) + "]"
+    else:
+        out = "{" + p_inner([q + escape(q, key) + q + bl() + ":" + bl() + p_term(v, bl, memo) for (q, key), v in t[1]], bl) + "}"
+    if memo is not None and k in ("call", "list", "dict"):
+        memo[id(t)] = out
+    return out
 
 
 def p_inner(parts, bl):
@@ -157,8 +96,8 @@ def p_inner(parts, bl):
     return out + bl()
 
 
-def p_prog(prog, bl):
-    return "".join(bl() + n + bl() + "=" + bl() + p_term(e, bl) + bl() + ";" for n, e in prog) + bl()
+def p_prog(prog, bl, memo=None):
+    return "".join(bl() + n + bl() + "=" + bl() + p_term(e, bl, memo) + bl() + ";" for n, e in prog) + bl()
 
 
 # -- generation ------------------------------------------------------------------------------
@@ -315,6 +254,328 @@ def corpus_more():
            ("RETURN", ("call", "echo", [("var", "RETURN"), ("var", "x")]))]
 
 
+
+# -- history and context -------------------------------------------------------------------------
+# The statement: a call applies the named built-in to the values its arguments have WHERE IT STANDS, every
+# time it stands there.  Streams below repeat one call text (the same term object, printed once) with
+# something changed in between: its variables rebound, the value of the other occurrence annotated in place,
+# the query window rebound, an earlier query (failed or not) of the same process having contained it.
+
+def S(s, q='"'):
+    return ("str", q, s)
+
+
+def I(n):
+    return ("int", str(n))
+
+
+def V(n):
+    return ("var", n)
+
+
+def C(name, *args):
+    return ("call", name, list(args))
+
+
+def L(*items):
+    return ("list", list(items))
+
+
+def D(*pairs):
+    return ("dict", [(('"', k), v) for k, v in pairs])
+
+
+def g_listval(rng, lo=0):
+    return L(*[I(rng.randrange(lo, lo + 50)) for _ in range(rng.choice([2, 3, 4]))])
+
+
+# call shapes over one or two list-valued variables, and what a call may be nested in
+CALL_SHAPES = [
+    lambda v, w: C("echo", V(v)),
+    lambda v, w: C("echo", I(5), V(v), V(w)),
+    lambda v, w: C("limit_events", V(v), I(2)),
+    lambda v, w: C("concat", V(v), V(w)),
+    lambda v, w: C("echo", L(V(v)), D(("k", V(w)))),
+    lambda v, w: C("limit_events", C("concat", V(w), V(v)), I(3)),
+]
+NESTINGS = [
+    lambda t, v: t,
+    lambda t, v: L(t),
+    lambda t, v: D(("k", L(t))),
+    lambda t, v: C("echo", t, V(v)),
+    lambda t, v: C("concat", t, L(I(99))),
+]
+FAILING = [(C("query_bucket", S("no-such-bucket")), "FunctionError"), (V("undefined_v"), "InterpretError"),
+           (C("concat", I(1), I(2)), "FunctionError"), (C("nop", I(1)), "InterpretError"),
+           (C("no_such_function"), "InterpretError")]
+
+
+def repeat_prog(shape, nesting, vals, names=("x", "y"), rounds=2, direct=False):
+    """x = vals[0]; y = vals[1]; r0 = T; x = vals[2]; y = ..; r1 = T; ..; RETURN = [r0, r1, ..(, T)] with T one
+    term object.  Returns (program, T)."""
+    v, w = names
+    t = nesting(shape(v, w), v)
+    vals = list(vals)
+    prog = [(v, vals.pop(0)), (w, vals.pop(0))]
+    outs = []
+    for i in range(rounds):
+        prog.append(("r%d" % i, t))
+        outs.append(V("r%d" % i))
+        if i + 1 < rounds or direct:
+            for name in (v, w):
+                if vals:
+                    prog.append((name, vals.pop(0)))
+    prog.append(("RETURN", L(*(outs + ([t] if direct else [])))))
+    return prog, t
+
+
+def g_repeat(rng):
+    names = tuple(rng.sample(NAMES, 2))
+    rounds = rng.choice([2, 2, 3])
+    vals = [g_listval(rng, 100 * i) for i in range(2 * rounds + 2)]
+    if rng.random() < 0.3:                  # the new value is computed from the old one / from an earlier result
+        vals[2] = rng.choice([L(V(names[0]), I(1)), V("r0"), C("concat", V(names[0]), V(names[1]))])
+    return repeat_prog(rng.choice(CALL_SHAPES), rng.choice(NESTINGS), vals, names, rounds, rng.random() < 0.4)[0]
+
+
+def vars_of(t, out=None):
+    out = [] if out is None else out
+    k = t[0]
+    if k == "var":
+        if t[1] not in out:
+            out.append(t[1])
+    elif k in ("call", "list"):
+        for a in (t[2] if k == "call" else t[1]):
+            vars_of(a, out)
+    elif k == "dict":
+        for _, v in t[1]:
+            vars_of(v, out)
+    return out
+
+
+def has_call(t):
+    k = t[0]
+    if k == "call":
+        return True
+    kids = t[1] if k == "list" else [v for _, v in t[1]] if k == "dict" else []
+    return any(has_call(x) for x in kids)
+
+
+def with_repeat(rng, prog):
+    """Any program: one of its expressions that contains a call over variables is evaluated a second time
+    (same term object) after some of those variables were rebound."""
+    cands = [(n, e) for n, e in prog[:-1] if has_call(e) and [v for v in vars_of(e) if v not in PREDEF]]
+    if not cands:
+        return None
+    n, e = rng.choice(cands)
+    used = [v for v in vars_of(e) if v not in PREDEF]
+    out = list(prog[:-1])
+    if n != "RETURN":
+        out.append(("rp_first", V(n)))
+    for v in used:
+        if rng.random() < 0.8:
+            out.append((v, g_term(rng, rng.choice([0, 1, 2]), [])))
+    out.append(("rp_again", e))
+    out.append(("RETURN", L(*([V("rp_first")] if n != "RETURN" else []), V("rp_again"), prog[-1][1])))
+    return out
+
+
+# buckets with events: "b1" of the first datastore (c17_impl.B1_EVENTS: 0:00-0:10, 1:00-1:20, 2:00-2:30) and a
+# "b1" with other content in a second datastore; window edges stay >= 5 minutes away from every event edge
+A1_EVENTS = [(45 * MINUTE, 5 * MINUTE, {"app": "a0", "title": "other"}), (105 * MINUTE, 5 * MINUTE, {"app": "zz", "title": "t1"})]
+WINDOW_EDGES = ["2020-01-01T00:30:00+00:00", "2020-01-01T01:40:00+00:00", "2020-01-01T00:05:00+00:00",
+                "2020-01-01T03:00:00+00:00", "2019-12-31T12:00:00+00:00", "2020-01-01T00:30:00.500000+00:00",
+                "2020-01-01T02:15:00+00:00"]
+
+
+def rule(rx, **more):
+    return D(("type", S("regex")), ("regex", S(rx)), *more.items())
+
+
+CATEGORY_RULES = [
+    L(L(L(S("Work")), rule("a0"))),
+    L(L(L(S("A")), rule("t[01]")), L(L(S("A"), S("B")), rule("a1")), L(L(S("C")), rule("^t"))),
+    L(L(L(S("T")), rule("T1", ignore_case=V("true"))), L(L(S("K")), D(("regex", S("a")), ("select_keys", L(S("title")))))),
+    L(),
+]
+TAG_RULES = [
+    L(L(S("t"), rule("a1"))),
+    L(L(S("zero"), rule("0")), L(S("any"), rule(".")), L(S("none"), rule("nomatch"))),
+    L(),
+]
+IN_PLACE = [("categorize", CATEGORY_RULES), ("tag", TAG_RULES)]
+
+
+def sources(bucket="b1"):
+    """literal-argument calls: the same text denotes a fresh application every time it stands somewhere"""
+    return [C("query_bucket", S(bucket)), C("query_bucket", S(bucket, "'"))]
+
+
+def corpus_history():
+    # 1. the identical call text again after its variables were rebound: every shape x every nesting
+    for shape in CALL_SHAPES:
+        for nest in NESTINGS:
+            vals = [L(I(1), I(2), I(3)), L(I(4), I(5)), L(I(7), I(8), I(9)), L(I(6))]
+            yield repeat_prog(shape, nest, vals)[0]
+    yield repeat_prog(CALL_SHAPES[2], NESTINGS[0], [L(I(1), I(2), I(3)), L(), L(I(7), I(8), I(9)), L(), L(S("a"), S("b"), S("c")), L(I(0)), L(I(4), I(5), I(6))],
+                      rounds=3, direct=True)[0]
+    # 2. identical literal-argument calls; an in-place built-in applied to one occurrence, the other one observed
+    for fn, rules in IN_PLACE:
+        for r in rules[:2]:
+            for src in sources():
+                yield [("a", src), ("c", src), ("a", C(fn, V("a"), r)), ("RETURN", V("c"))]
+                yield [("a", src), ("c", src), ("a", C(fn, V("a"), r)), ("RETURN", L(V("a"), V("c"), src))]
+                yield [("RETURN", D(("done", C(fn, src, r)), ("raw", src)))]
+                yield [("a", C(fn, src, r)), ("RETURN", C("echo", src, V("a"), src))]
+                yield [("a", C("limit_events", src, I(2))), ("c", src), ("x", C(fn, V("c"), r)), ("RETURN", L(V("a"), src))]
+    for fn, rules in IN_PLACE:            # both, one after the other, on different occurrences
+        yield [("a", C("categorize", sources()[0], CATEGORY_RULES[1])), ("c", C("tag", sources()[0], TAG_RULES[1])),
+               ("RETURN", L(V("a"), V("c"), sources()[0]))]
+    # 3. identical literal-argument calls with the query window rebound in between
+    for src in sources() + [C("query_bucket_eventcount", S("b1"))]:
+        for name in ("STARTTIME", "ENDTIME"):
+            for edge in WINDOW_EDGES[:4]:
+                yield [("a", src), (name, S(edge)), ("c", src), ("RETURN", L(V("a"), V("c")))]
+        yield [("a", src), ("STARTTIME", S(WINDOW_EDGES[0])), ("c", src), ("ENDTIME", S(WINDOW_EDGES[1])), ("e", src),
+               ("STARTTIME", S(WINDOW_EDGES[4])), ("RETURN", L(V("a"), V("c"), V("e"), src))]
+    for lit in (C("echo", I(1), S("s")), C("nop"), C("echo"), C("limit_events", L(I(1), I(2)), I(1))):
+        yield [("a", lit), ("c", lit), ("a", C("concat", V("a"), V("c")) if lit[1] != "nop" else L(V("a"))), ("RETURN", L(V("a"), V("c"), lit))]
+    # 4. RETURN assigned early / more than once / followed by further statements, also failing ones
+    yield [("RETURN", I(1)), ("x", I(2))]
+    yield [("x", I(1)), ("RETURN", V("x")), ("x", I(2))]
+    yield [("x", L(I(1))), ("RETURN", C("echo", V("x"))), ("x", L(I(2))), ("y", C("echo", V("x")))]
+    yield [("RETURN", I(1)), ("RETURN", I(2)), ("z", V("RETURN")), ("RETURN", L(V("z"), V("RETURN"))), ("z", I(0))]
+    for bad, _ in FAILING:
+        yield [("RETURN", I(1)), ("y", bad)]
+        yield [("RETURN", I(1)), ("y", I(2)), ("RETURN", bad)]
+        yield [("x", bad), ("RETURN", I(1))]
+    # 5. larger than any plausible chunk / cache constant
+    big = L(*[I(i) for i in range(10001)])
+    yield [("x", big), ("RETURN", C("limit_events", V("x"), I(10000)))]
+    yield [("x", I(0))] + [("x", L(V("x")))] * 3 + [("y%d" % (i % 50), I(i)) for i in range(10001)] + [("RETURN", L(V("x"), V("y49")))]
+
+
+def g_events_prog(rng, bucket="b1"):
+    """Statements over event lists: literal-argument sources, in-place and sharing built-ins, aliases, the query
+    window rebound; the same source term object throughout."""
+    src = rng.choice(sources(bucket))
+    if rng.random() < 0.15:
+        src = C("query_bucket", V("bname"))
+    prog = [("bname", S(bucket))] if src[2][0][0] == "var" else []
+    evs = []
+
+    def ev():
+        return V(rng.choice(evs)) if evs and rng.random() < 0.6 else src
+
+    for _ in range(rng.randrange(2, 8)):
+        r = rng.random()
+        name = rng.choice(["a", "c", "e1", "events"])
+        if r < 0.25:
+            e = src
+        elif r < 0.5:
+            fn, rules = rng.choice(IN_PLACE)
+            e = C(fn, ev(), rng.choice(rules))
+        elif r < 0.65:
+            e = rng.choice([lambda: C("limit_events", ev(), I(rng.randrange(0, 4))), lambda: C("sort_by_timestamp", ev()),
+                            lambda: C("sort_by_duration", ev()), lambda: C("concat", ev(), ev()),
+                            lambda: C("filter_keyvals", ev(), S("app"), L(S("a0"), S("zz"))),
+                            lambda: C("exclude_keyvals", ev(), S("title"), L(S("t1")))])()
+        elif r < 0.82:
+            prog.append((rng.choice(["STARTTIME", "ENDTIME"]), S(rng.choice(WINDOW_EDGES))))
+            continue
+        elif r < 0.9 and evs:
+            e = V(rng.choice(evs))
+        else:
+            prog.append(("n", C(rng.choice(["query_bucket_eventcount", "query_bucket_eventcount", "sum_durations"]),
+                                S(bucket) if rng.random() < 0.7 else ev())))
+            continue
+        prog.append((name, e))
+        if name not in evs:
+            evs.append(name)
+    r = rng.random()
+    if r < 0.35 and evs:
+        ret = V(rng.choice(evs))
+    elif r < 0.6:
+        ret = L(*[V(n) for n in evs], src)
+    elif r < 0.8:
+        fn, rules = rng.choice(IN_PLACE)
+        ret = D(("done", C(fn, src, rng.choice(rules))), ("raw", src), ("kept", L(*[V(n) for n in evs])))
+    else:
+        ret = C("echo", src, *[V(n) for n in evs])
+    return prog + [("RETURN", ret)]
+
+
+def g_return_prog(rng):
+    """RETURN assigned somewhere in the middle (perhaps several times), further statements after it: rebinding
+    what RETURN was computed from, reading RETURN back, failing."""
+    prog = g_prog(rng)
+    bound = [n for n, _ in prog]
+    for _ in range(rng.choice([1, 1, 2, 3])):
+        r = rng.random()
+        if r < 0.45:
+            prog.append((rng.choice(bound + NAMES), g_term(rng, rng.choice([0, 1, 2]), list(bound))))
+        elif r < 0.6:
+            prog.append((g_name(rng), V("RETURN")))
+        elif r < 0.8:
+            prog.append(("RETURN", rng.choice([L(V("RETURN"), I(1)), C("echo", V("RETURN")), g_term(rng, 1, list(bound))])))
+        else:
+            prog.append((rng.choice(["zz", "RETURN"]), rng.choice(FAILING)[0]))
+    return prog
+
+
+def corpus_sessions():
+    """[(datastore name, program)] run one after the other in the process; one print memo per session."""
+    vals = lambda k: [L(I(k + 1), I(k + 2), I(k + 3)), L(I(k + 4), I(k + 5)), L(I(k + 7), I(k + 8), I(k + 9)), L(I(k + 6))]
+    for i, shape in enumerate(CALL_SHAPES):
+        nest = NESTINGS[i % len(NESTINGS)]
+        for bad, _ in FAILING[:3] if i else FAILING:
+            good, t = repeat_prog(shape, nest, vals(0))
+            # a query that fails half-way after having evaluated T, then queries containing the same text
+            failing = [("x", L(I(41), I(42), I(43))), ("y", L(I(44))), ("r0", t), ("zz", bad), ("RETURN", V("r0"))]
+            after = [("x", L(I(10), I(20), I(30))), ("y", L(I(50), I(60))), ("RETURN", t)]
+            yield [("main", failing), ("main", after)]
+            yield [("main", good), ("main", failing), ("main", after), ("main", good)]
+    for fn, rules in IN_PLACE:
+        src = sources()[0]
+        q = [("a", src), ("c", C(fn, src, rules[0])), ("RETURN", L(V("a"), V("c")))]
+        yield [("main", q), ("A", q), ("main", q)]                    # one text, two datastores alive at once
+        half = [("a", src), ("c", C(fn, V("a"), rules[1])), ("zz", FAILING[1][0]), ("RETURN", V("c"))]
+        yield [("main", half), ("main", [("RETURN", src)]), ("A", half), ("A", [("a", src), ("RETURN", V("a"))])]
+    q = [("a", sources()[0]), ("STARTTIME", S(WINDOW_EDGES[0])), ("c", sources()[0]), ("RETURN", L(V("a"), V("c")))]
+    yield [("A", q), ("main", q), ("A", q), ("main", q)]
+    yield [("main", [("RETURN", C("query_bucket", S("b2")))]), ("A", [("RETURN", C("query_bucket_eventcount", S("b2")))]),
+           ("main", [("RETURN", C("query_bucket_eventcount", S("b2")))])]      # "b2" exists in A only
+
+
+def g_session(rng):
+    r = rng.random()
+    if r < 0.45:
+        names = tuple(rng.sample(NAMES, 2))
+        shape, nest = rng.choice(CALL_SHAPES), rng.choice(NESTINGS)
+        prog, t = repeat_prog(shape, nest, [g_listval(rng, 100 * i) for i in range(4)], names)
+        qs = []
+        for _ in range(rng.choice([2, 3, 4])):
+            k = rng.random()
+            head = [(names[0], g_listval(rng, 500)), (names[1], g_listval(rng, 600))]
+            if k < 0.4:
+                qs.append(head + [("r0", t), (rng.choice(["zz", "RETURN"]), rng.choice(FAILING)[0]), ("RETURN", V("r0"))])
+            elif k < 0.8:
+                qs.append(head + [("RETURN", rng.choice([t, L(t, t), C("echo", V(names[0]), t)]))])
+            else:
+                qs.append(prog)
+        return [(rng.choice(["main", "main", "A"]), q) for q in qs]
+    if r < 0.85:
+        q = g_events_prog(rng)
+        qs = [q]
+        if rng.random() < 0.5:
+            qs.insert(0, q[:max(1, len(q) // 2)] + [("zz", rng.choice(FAILING)[0])] + q[len(q) // 2:])
+        if rng.random() < 0.5:
+            qs.append(g_events_prog(rng))
+        return [(rng.choice(["main", "A"]), x) for x in qs for _ in range(rng.choice([1, 1, 2]))]
+    q = g_prog(rng)
+    return [("main", q), (rng.choice(["main", "A"]), with_repeat(rng, q) or q), ("main", q)]
+
+
 LAYOUT_GRID_PROGS = [
     [("x", ("list", [("int", "1"), ("str", '"', "a b")])), ("RETURN", ("call", "echo", [("var", "x"), ("dict", [(("'", "k"), ("call", "nop", [])), (('"', "l"), ("list", []))]), ("int", "3")]))],
     [("RETURN", ("dict", [(('"', "a"), ("dict", [(("'", "b"), ("list", [("call", "echo", []), ("dict", [])]))])), (('"', "c"), ("var", "true"))]))],
@@ -400,29 +661,101 @@ def main(argv=None):
     have_driver = ck.driver("ExC17")
 
     quick = ck.tier == "quick"
+    for d in impl.registry_diffs:       # the built-ins' interface is not the frozen one (corpus/c17_registry.json)
+        ck.disagreement("registry", d, {"registry": d, "snapshot": impl.snapshot_path})
+    # a second datastore alive beside the first: a bucket of the same name with other content, and one more
+    sess = Session(impl)
+    setup_ops = [["datastore", "A", "memory"], ["create", "A", "b1", [list(e) for e in A1_EVENTS]],
+                 ["create", "A", "b2", [[30 * MINUTE, MINUTE, {"app": "only-in-A"}]]]]
+    for op in setup_ops:
+        sess.apply(op)
+
+    def contents(dsname):
+        return impl.contents[id(sess.dss[dsname])]
+
     progs = [("corpus", p, None) for p in corpus()] + [("corpus", p, None) for p in corpus_more()]
+    progs += [("corpus-history", p, None) for p in corpus_history()]
     for p in LAYOUT_GRID_PROGS:         # every white-space character alone at every slot
         for b in SINGLE_BLANKS:
             progs.append(("layout-grid", p, [lambda b=b: b]))
     for _ in range(2500 if quick else 150000):
         progs.append(("random", g_prog(ck.rng), None))
+    for _ in range(300 if quick else 20000):
+        progs.append(("random-repeat", g_repeat(ck.rng), None))
+        p = with_repeat(ck.rng, g_prog(ck.rng))
+        if p:
+            progs.append(("random-repeat", p, None))
+        progs.append(("random-return", g_return_prog(ck.rng), None))
+    for _ in range(400 if quick else 30000):
+        progs.append(("random-events", g_events_prog(ck.rng), None))
 
     compact = lambda: ""
+    rnd = lambda: ck.rng.choice(BLANKS)
     wire, expect = [], []
     seen = set()
-    for stream, prog, fixed_layouts in progs:
+    minimised = []
+
+    def widest(t):
+        k = t[0]
+        kids = t[2] if k == "call" else t[1] if k == "list" else [v for _, v in t[1]] if k == "dict" else []
+        return max([len(kids)] + [widest(x) for x in kids])
+
+    def ask(stream, prog, text, dsname="main", history=None):
+        """One query: the reference on this program alone (datastore contents as they are), the
+        implementation in this process as it is by now, the model on this text alone."""
+        want = denotation(prog, contents(dsname))
+        r = impl.run(text, ds=sess.dss[dsname])
+        kind, payload = r["outcome"]
+        got = ("value", canon(impl, payload)) if kind == "value" else (kind, payload)
+        ck.count("stream:" + stream)
+        ck.count("outcome:" + (kind if kind != "error" else payload))
+        ck.count("statements=%d" % min(len(prog), 9))
+        ck.note_case(text if history is None else [text, dsname, len(history)], nontrivial=any(c in text for c in "([{"))
+        short = text if len(text) < 400 else text[:200] + f" ...({len(text)} characters)... " + text[-80:]
+        op = ["query", dsname, text, {"value": want[1]} if want[0] == "value" else {"class": want[1]} if want[0] == "error" else {}]
+        if want[0] == "ambiguous" or (want[0] == "error" and want[1] in ("Other", "Unparseable")):
+            ck.count("reference-silent:" + (want[0] if want[0] == "ambiguous" else "outside the documented behaviour"))
+            op[3] = {}
+        elif got != want:
+            show = lambda o: repr(o[1])[:600]
+            replay = {"query": text, "implementation": show(got), "reference": show(want), "ast": repr(prog)[:4000], "datastore": dsname,
+                      "call": "aw_query.query2.query('q-name', query, 2020-01-01Z, 2020-01-02Z, datastore); values in the "
+                              "canonical form of harness/c17_session.canon (events as [offset from 2020-01-01Z, duration, data] in us)"}
+            if history is not None:
+                ops = setup_ops + history + [op]
+                if not minimised and not ck.violations:
+                    minimised.append(1)
+                    ops, confirmed = minimise(ops, droppable=lambda o: o[0] == "query")
+                    replay["session_reproduces_in_a_fresh_process"] = confirmed
+                replay["session"] = ops
+                replay["rerun"] = ("save replay.session as {\"ops\": [...]} and run /venv/bin/python -m harness.c17_session <file> "
+                                   "(exit 1 = the last query misses its expectation)")
+            where = "" if history is None else f" (query {len(history) + 1} of a session, datastore {dsname})"
+            ck.failing_input("C11:value-differs-from-text",
+                             f"{short!r} evaluates to {show(got)[:300]}, its text denotes {show(want)[:300]}{where}", replay)
+        if len(ck.samples) < 6 and stream == "random" and kind == "value" and len(text) > 40:
+            ck.sample({"query": text, "value": repr(payload)[:200]})
+        if max(widest(e) for _, e in prog) > 2000:
+            ck.count("outside-model:bracketed text of more than 2000 entries (the extracted scanner is quadratic)")
+            return got, op
         try:
-            want = ("value", ref_run(prog))
-        except RefError as e:
-            want = ("error", e.cls)
+            case, log, wantw = impl.model_case(text, r, impl.buckets_of(sess.dss[dsname]))
+        except Unsupported as e:
+            ck.count("outside-model:" + str(e)[:40])
+            return got, op
+        wire.append(case)
+        expect.append((stream, short, log, wantw, dsname))
+        return got, op
+
+    for stream, prog, fixed_layouts in progs:
         outs = []
-        layouts = fixed_layouts if fixed_layouts is not None else \
-                  [compact, lambda: ck.rng.choice(BLANKS)] if stream == "corpus" else \
-                  [lambda: ck.rng.choice(BLANKS), lambda: ck.rng.choice(BLANKS)]
+        memo = {}
+        layouts = [(bl, None) for bl in fixed_layouts] if fixed_layouts is not None else \
+                  [(compact, memo), (rnd, None)] if stream.startswith("corpus") else [(rnd, memo), (rnd, None)]
         feats = features(prog)
         depth = max(depth_of(e) for _, e in prog)
-        for bl in layouts:
-            text = p_prog(prog, bl)
+        for bl, m in layouts:
+            text = p_prog(prog, bl, m)
             if text in seen:
                 continue
             seen.add(text)
@@ -432,36 +765,25 @@ def main(argv=None):
             for b in SINGLE_BLANKS[:-1]:
                 if b in text:
                     ck.count("blank:%r" % b)
-            r = impl.run(text)
-            kind, payload = r["outcome"]
-            got = ("value", payload) if kind == "value" else (kind, payload)
-            outs.append(got)
-            ck.count("stream:" + stream)
-            ck.count("outcome:" + (kind if kind != "error" else payload))
-            ck.count("statements=%d" % len(prog))
-            ck.note_case(text, nontrivial=any(c in text for c in "([{"))
-            ok = (got[0] == want[0] and (deep_eq(got[1], want[1]) if got[0] == "value" else got[1] == want[1]))
-            if not ok:
-                ck.failing_input("C11:value-differs-from-text",
-                                 f"{text!r} evaluates to {got[1]!r}, its text denotes {want[1]!r}",
-                                 {"query": text, "implementation": repr(got[1]), "reference": repr(want[1]),
-                                  "ast": repr(prog), "call": "aw_query.query2.query('q-name', query, 2020-01-01Z, 2020-01-02Z, Datastore(MemoryStorage))"})
-            if len(ck.samples) < 6 and stream == "random" and kind == "value" and len(text) > 40:
-                ck.sample({"query": text, "value": repr(payload)[:200]})
-            try:
-                case, log, wantw = impl.model_case(text, r)
-            except Unsupported as e:
-                ck.count("outside-model:" + str(e)[:40])
-                continue
-            wire.append(case)
-            expect.append((stream, text, log, wantw))
-        if len(outs) == 2 and not (outs[0][0] == outs[1][0] and (deep_eq(outs[0][1], outs[1][1]) if outs[0][0] == "value" else outs[0][1] == outs[1][1])):
-            ck.failing_input("C11:layout-changes-result", f"two layouts of one program give {outs[0][1]!r} and {outs[1][1]!r}",
-                             {"ast": repr(prog), "results": [repr(o[1]) for o in outs]})
+            outs.append(ask(stream, prog, text)[0])
+        if len(outs) == 2 and outs[0] != outs[1]:
+            ck.failing_input("C11:layout-changes-result", f"two layouts of one program give {outs[0][1]!r:.300} and {outs[1][1]!r:.300}",
+                             {"ast": repr(prog)[:4000], "results": [repr(o[1])[:600] for o in outs]})
+
+    # sessions: several queries one after the other in this process; each against the reference on it alone
+    sessions = [("session", q) for q in corpus_sessions()] + [("session-random", g_session(ck.rng)) for _ in range(150 if quick else 10000)]
+    for stream, queries in sessions:
+        memo, history = {}, []
+        bl = compact if ck.rng.random() < 0.3 else rnd
+        for dsname, prog in queries:
+            text = p_prog(prog, bl, memo)
+            got, op = ask(stream, prog, text, dsname, history)
+            history.append(op)
+        ck.count("session-length=%d" % len(queries))
 
     if have_driver and wire:
         model = common.run_driver("C11", wire)
-        for (stream, text, log, wantw), mo in zip(expect, model):
+        for (stream, text, log, wantw, dsname), mo in zip(expect, model):
             if mo == [-999] or mo == [-998] or len(mo) != 3:
                 ck.disagreement("query", f"driver rejected the case for {text!r}", {"query": text, "model": mo})
                 continue
@@ -469,11 +791,18 @@ def main(argv=None):
             if out != wantw or mlog != log or exh != 0:
                 what = (f"{text!r}: model {show_outcome(out)} / implementation {show_outcome(wantw)}"
                         if out != wantw else f"{text!r}: built-in body calls differ")
-                ck.disagreement("query", what, {"query": text, "stream": stream, "model_outcome": show_outcome(out),
-                                                 "impl_outcome": show_outcome(wantw), "model_calls": mlog, "impl_calls": log})
+                ck.disagreement("query", what + ("" if not stream.startswith("session") else f" (in a session, datastore {dsname})"),
+                                {"query": text, "stream": stream, "datastore": dsname, "model_outcome": show_outcome(out),
+                                 "impl_outcome": show_outcome(wantw), "model_calls": mlog, "impl_calls": log})
     ck.assumptions += [
-        "the reference evaluator's table of built-ins (nop, echo, limit_events, concat and the transforms on empty lists) is "
-        "written from their documented behaviour on literal arguments, independently of aw_query.functions",
+        "the reference evaluator's table of built-ins (harness/c11_ref.py: nop, echo, limit_events, concat, sort_by_*, "
+        "filter/exclude_keyvals, sum_durations, query_bucket[_eventcount], categorize, tag; flood, merge_events_by_keys, "
+        "period_union on empty lists) is written from their documented behaviour, independently of aw_query.functions",
+        "where a built-in annotates its argument's events in place while another live value shares them, the text's value "
+        "is not decided by the statement: such programs (reference with immutable values != reference with Python object "
+        "semantics) are run but not compared (input_distribution: reference-silent:ambiguous)",
+        "query windows keep every edge >= 5 minutes away from every event edge; timestamps within a bucket are distinct",
+        "the built-ins' interface is the frozen registry corpus/c17_registry.json (tools/c17_registry.py)",
         "built-in bodies are an oracle for the model (replayed from the implementation's recorded calls)",
         "string literals: no ';' and no trailing backslash in the content; non-ASCII only inside string literals",
         "integer values beyond 2^61 are compared with the reference evaluator only (driver text glue); CPython's "
